@@ -2267,10 +2267,13 @@ impl DistributedTxCoordinator {
     ///
     /// Returns the number of locks released.
     pub fn release_orphaned_locks(&self, partition_start_ms: u64) -> usize {
-        // Atomic single critical section: identify and clean together to prevent TOCTOU races
+        // Atomic single critical section: identify and clean together to prevent TOCTOU races.
+        // Lock order: `pending` BEFORE the lock-table locks, the order of every end-of-transaction
+        // site (commit/abort/... hold `pending.write()` while releasing by handle); taking the
+        // lock-table locks first deadlocks against a concurrent commit or abort.
+        let pending = self.pending.read();
         let mut locks = self.lock_manager.locks.write();
         let mut tx_locks = self.lock_manager.tx_locks.write();
-        let pending = self.pending.read();
 
         // Snapshot active transactions while holding all locks
         let active_tx_ids: std::collections::HashSet<u64> = pending.keys().copied().collect();
